@@ -233,4 +233,65 @@ theorem mem_okOrder {ok : α → Bool} : ∀ (sched : List Nat) (s : σ) (ps : L
       rw [if_pos this]
       exact List.mem_cons_self
 
+theorem pending_stepAt_of_not {ps : List (Prog σ α)} {i : Nat} (j : Nat) (s : σ) (h : pending ps i = false) :
+    pending (Prog.stepAt ps j s).2 i = false := by
+  rcases stepAt_cases ps j s with ⟨e, -⟩ | ⟨l, f, hj, e⟩
+  · rw [e]; exact h
+  · rw [e]
+    by_cases hji : j = i
+    · subst hji
+      unfold pending at h
+      rw [hj] at h
+      simp [Prog.next?] at h
+    · unfold pending
+      show (((ps.set j (f s).2)[i]?).bind Prog.next?).isSome = false
+      rw [List.getElem?_set_ne hji]; exact h
+
+theorem not_mem_okOrder_of_not_pending {ok : α → Bool} : ∀ (sched : List Nat) (s : σ) (ps : List (Prog σ α)) (i : Nat),
+    pending ps i = false → i ∉ okOrder ok sched s ps
+  | [], _, _, _, _ => by simp [okOrder]
+  | j :: rest, s, ps, i, h => by
+    have ih := not_mem_okOrder_of_not_pending (ok := ok) rest (Prog.stepAt ps j s).1 (Prog.stepAt ps j s).2 i
+      (pending_stepAt_of_not j s h)
+    unfold okOrder
+    split
+    · rename_i hfin
+      intro hm
+      rcases List.mem_cons.mp hm with e | h'
+      · subst e
+        unfold finishesOk at hfin
+        rw [h] at hfin
+        simp at hfin
+      · exact ih h'
+    · exact ih
+
+/-- no request finishes twice -/
+theorem okOrder_nodup {ok : α → Bool} : ∀ (sched : List Nat) (s : σ) (ps : List (Prog σ α)),
+    (okOrder ok sched s ps).Nodup
+  | [], _, _ => by simp [okOrder]
+  | j :: rest, s, ps => by
+    have ih := okOrder_nodup (ok := ok) rest (Prog.stepAt ps j s).1 (Prog.stepAt ps j s).2
+    unfold okOrder
+    split
+    · rename_i hfin
+      refine List.nodup_cons.mpr ⟨?_, ih⟩
+      apply not_mem_okOrder_of_not_pending
+      unfold finishesOk at hfin
+      simp only [Bool.and_eq_true] at hfin
+      obtain ⟨-, hm⟩ := hfin
+      unfold pending
+      split at hm
+      · rename_i a ha
+        rw [ha]; rfl
+      · cases hm
+    · exact ih
+
+/-- `QuietElse` at a given step of the schedule -/
+theorem quietElse_split {ok : α → Bool} : ∀ (pre : List Nat) (j : Nat) (post : List Nat) (s : σ) (ps : List (Prog σ α)),
+    QuietElse ok (pre ++ j :: post) s ps →
+    finishesOk ok (Prog.runSched pre s ps).2 j (Prog.runSched pre s ps).1 = false →
+    (Prog.runSched (pre ++ [j]) s ps).1 = (Prog.runSched pre s ps).1
+  | [], j, post, s, ps, h, hf => h.1 hf
+  | i :: pre, j, post, s, ps, h, hf => quietElse_split pre j post _ _ h.2 hf
+
 end Placement.Sched
